@@ -597,7 +597,21 @@ impl RuleConfiguration for RemoveComments {
     }
 
     fn serialize_to_properties(&self) -> RuleProperties {
-        RuleProperties::new()
+        let mut properties = RuleProperties::new();
+
+        if !self.except.is_empty() {
+            properties.insert(
+                "except".to_owned(),
+                crate::rules::RulePropertyValue::StringList(
+                    self.except
+                        .iter()
+                        .map(|pattern| pattern.as_str().to_owned())
+                        .collect(),
+                ),
+            );
+        }
+
+        properties
     }
 
     fn set_metadata(&mut self, metadata: RuleMetadata) {
